@@ -71,7 +71,7 @@ Inductive label :=
 | ChkClosing (b : bool)
 | Dispatch (rid : option N)                   (* _dispatch_message; Some rid: the reply of request rid *)
 | CbRaise                                     (* parser or a listener callback raised *)
-| CbClose                                     (* a listener callback calls session.close() *)
+| CbClose (rid : option N)                    (* like Dispatch, and one of the callbacks calls session.close() *)
 | ErrBroadcast | WorkerCloseCall | Exit.
 
 Record state := mk {
@@ -262,9 +262,16 @@ Definition step (s : state) (l : label) : option state :=
       | _ => None end
   | CbRaise =>
       match worker s with WDispatching _ => Some (w_worker s WRaised) | _ => None end
-  | CbClose =>
+  | CbClose rid =>
       match worker s with
-      | WDispatching (S n) => Some (note_cb (w_worker s (WClosing (close_prog (tr s)) (RDispatch n))))
+      | WDispatching (S n) =>
+          let s1 := note_cb (w_worker s (WClosing (close_prog (tr s)) (RDispatch n))) in
+          match rid with
+          | None => Some s1
+          | Some r => if mem_N r (pending s)
+                      then Some (w_reqs s1 (remove_N r (pending s)) (failed s) (r :: answered s) (late s) (accepted_early s))
+                      else None
+          end
       | _ => None end
   | ErrBroadcast =>
       let fail_all s1 := w_reqs s1 [] (pending s ++ failed s) (answered s) (late s) (accepted_early s) in
@@ -311,18 +318,18 @@ Fixpoint accepts_prefix (s : state) (ls : list label) (k : N) : N * state :=
 (* labels performed by the worker thread *)
 Definition is_worker_label (l : label) : bool :=
   match l with
-  | Raise | SelectBegin | Select _ | ReadBegin | Read _ | ChkClosing _ | Dispatch _ | CbRaise | CbClose
+  | Raise | SelectBegin | Select _ | ReadBegin | Read _ | ChkClosing _ | Dispatch _ | CbRaise | CbClose _
   | ErrBroadcast | WorkerCloseCall | Exit | CStep Worker _ _ | CloseRet Worker => true
   | _ => false
   end.
 
 (* worker labels that consume one already-read message *)
 Definition is_dispatch_label (l : label) : bool :=
-  match l with Dispatch _ | CbClose => true | _ => false end.
+  match l with Dispatch _ | CbClose _ => true | _ => false end.
 
 (* worker labels that invoke listeners *)
 Definition is_callback_label (l : label) : bool :=
-  match l with Dispatch _ | CbClose | ErrBroadcast => true | _ => false end.
+  match l with Dispatch _ | CbClose _ | ErrBroadcast => true | _ => false end.
 
 (* upper bound on the number of non-dispatch worker steps left once the session is closed locally *)
 Definition wfuel (w : wpc) : nat :=
